@@ -295,6 +295,7 @@ def run(ctx):
                 raise MachineryError('model text %s differs from the independent encoder for %s' % (want, rid(row)))
             case = {'kind': 'enc', 'hp': hp.decode(), 'elen': elen, 'payload': meta['payload'].hex(), 'text': want, 'row_ok': row_ok[meta['row']]}
             ok = compare_enc(ctx, hp, elen, meta['payload'], want, row_ok[meta['row']], case)
+            ctx.again(compare_enc, ctx, hp, elen, meta['payload'], want, row_ok[meta['row']], case)
             if ok and meta['cls'] == 'random':
                 ctx.sample({'encode': rid(row), 'payload': meta['payload'].hex(), 'text': want}, limit=3)
         else:
@@ -306,8 +307,10 @@ def run(ctx):
                 continue
             case = {'kind': 'dec', 'cls': meta['cls'], 'text': meta['text'], 'verdict': [v[0]] + ([v[1], v[2].hex()] if v[0] == 'accept' else [])}
             ok = compare_dec(ctx, meta['text'], v, meta['cls'], case)
+            ctx.again(compare_dec, ctx, meta['text'], v, meta['cls'], case)
             if ok and meta['cls'] in ('spliced-prefix', 'bad-checksum'):
                 ctx.sample({'decode': meta['text'], 'corruption': meta['cls'], 'model': v[0]}, limit=6)
+    ctx.second_pass()
 
 
 def replay(ctx, rep):
